@@ -22,6 +22,9 @@ Shapes == {
   <<"spread_only", Obj(<< <<"props", UP>>, <<"name", UN>> >>)>>,          \* { ...o }            o = { props: ['u'], name: 'N' }
   <<"spread_then_emits", Obj(<< <<"props", UP>>, <<"name", UN>>, <<"emits", UE>> >>)>>,   \* { ...o, emits: ['x'] }
   <<"emits_then_spread", Obj(<< <<"emits", UE>>, <<"props", UP>>, <<"name", UN>> >>)>>,   \* { emits: ['x'], ...o }
+  <<"two_spreads_oe", Obj(<< <<"props", UP>>, <<"name", UN>> >>)>>,     \* { ...o, ...e }
+  <<"two_spreads_eo", Obj(<< <<"props", UP>>, <<"name", UN>> >>)>>,     \* { ...e, ...o }
+  <<"two_spreads_om", Obj(<< <<"props", UP>>, <<"name", UN>>, <<"emits", UE>> >>)>>,   \* { ...o, ...mk() }
   <<"spread_empty", Obj(<<>>)>>,                                           \* { ...e }            e = {}
   <<"ident", Obj(<< <<"props", UP>>, <<"name", UN>> >>)>>,                 \* o
   <<"ident_empty", Obj(<<>>)>>,                                            \* e
